@@ -370,7 +370,7 @@ class ClientWorldObjectManager:
             # May not have been tracked by any region if it had moved to an unknown one.
             if old_region_state is not None:
                 old_region_state.untrack_object(obj)
-        elif old_local_id != new_local_id:
+        elif old_local_id != new_local_id and old_region_state is not None:
             # Our LocalID changed, and we deal with linkages to other prims by
             # LocalID association. Break any links since our LocalID is changing.
             # Could happen if we didn't mark an attachment prim dead and the parent agent
@@ -400,7 +400,7 @@ class ClientWorldObjectManager:
                 # `Avatar` instances are handled separately. Update all Avatar objects,
                 # so we can deal with the RegionHandle change.
                 self._rebuild_avatar_objects()
-        elif new_parent_id != old_parent_id:
+        elif new_parent_id != old_parent_id and new_region_state is not None:
             # Parent ID changed, but we're in the same region
             new_region_state.handle_object_reparented(obj, old_parent_id=old_parent_id)
 
